@@ -15,8 +15,8 @@ RULES = {
     "C08": [("sa.rules.b3", "r_C08_C34"), ("sa.rules.b3", "r_C02cd"), ("sa.rules.c08", "r_C08bc"), ("sa.rules.cmeta", "r_initobj")],
     "C09": [("sa.rules.b3", "r_C09"), ("sa.rules.b3", "r_C07"), ("sa.rules.cmisc", "r_C13d_C34f_C09d"), ("sa.rules.c08", "r_C08bc"), ("sa.rules.b3", "r_C08_C34")],
     "C10": [("sa.rules.b3", "r_C05_C10"), ("sa.rules.c05", "r_none_tests"), ("sa.rules.cmisc", "r_C10e"), ("sa.rules.b6", "r_C03bc"), ("sa.rules.c03", "r_C03fgh"), ("sa.rules.c01", "r_C01i")],
-    "C11": [("sa.rules.b3", "r_C03de_C11a_C17bc"), ("sa.rules.c11", "r_C11b"), ("sa.rules.c11", "r_C11de"), ("sa.rules.c32", "r_C32c"), ("sa.rules.c05", "r_none_tests"), ("sa.rules.c12", "r_C12f")],
-    "C12": [("sa.rules.b1", "r_C12a"), ("sa.rules.c12", "r_C12b"), ("sa.rules.c05", "r_C12c"), ("sa.rules.c11", "r_C11de"), ("sa.rules.c12", "r_C12f")],
+    "C11": [("sa.rules.b3", "r_C03de_C11a_C17bc"), ("sa.rules.c11", "r_C11b"), ("sa.rules.c11", "r_C11de"), ("sa.rules.c32", "r_C32c"), ("sa.rules.c05", "r_none_tests"), ("sa.rules.c12", "r_C12f"), ("sa.rules.c12e", "r_C12eval")],
+    "C12": [("sa.rules.b1", "r_C12a"), ("sa.rules.c12", "r_C12b"), ("sa.rules.c05", "r_C12c"), ("sa.rules.c11", "r_C11de"), ("sa.rules.c12", "r_C12f"), ("sa.rules.c12e", "r_C12eval")],
     "C13": [("sa.rules.b3", "r_C13"), ("sa.rules.c13", "r_C13eval"), ("sa.rules.cmisc", "r_C13d_C34f_C09d"), ("sa.rules.cmisc", "r_C13e"), ("sa.rules.c04", "r_C04defaults"), ("sa.rules.c17", "r_C18i"), ("sa.rules.b3", "r_C28b_C33b_C30bc"), ("sa.rules.cmeta", "r_mmapi")],
     "C14": [("sa.rules.b4", "r_ledger"), ("sa.rules.c14", "r_C14inst"), ("sa.rules.c14", "r_ledger2"), ("sa.rules.b3", "r_C13"), ("sa.rules.c14", "r_C14h"), ("sa.rules.c14", "r_C14d"), ("sa.rules.c14", "r_C14i"), ("sa.rules.c14", "r_C15h"), ("sa.rules.c14", "r_C15i"), ("sa.rules.cmeta", "r_initclass"), ("sa.rules.cmeta", "r_initobj")],
     "C15": [("sa.rules.b4", "r_ledger"), ("sa.rules.c14", "r_ledger2"), ("sa.rules.c14", "r_C14i"), ("sa.rules.c14", "r_C15h"), ("sa.rules.b3", "r_C16a"), ("sa.rules.c14", "r_C15i"), ("sa.rules.c17", "r_C17jkl"), ("sa.rules.c17", "r_C18i"), ("sa.rules.c14", "r_C14inst"), ("sa.rules.cmeta", "r_initclass")],
